@@ -707,7 +707,10 @@ def make_world(layout: str, origin_vertex: bool = False) -> dict:
         {'s': [1.0, 0.0, 0.0, 0.0], 't': [0.0, 1.0, 0.0, 0.0], 'ls': [0.0, 0.0, 0.0, -99999.0], 'lt': [0.0, 0.0, 0.0, -99999.0], 'flags': 0x0080, 'td': 1},
     ]
     w['planes'] = [{'n': [0.0, 0.0, 1.0], 'd': 0.0, 't': 2}, {'n': [1.0, 0.0, 0.0], 'd': 64.0, 't': 0},
-                   {'n': [0.0, 1.0, 0.0], 'd': -64.0, 't': 1}, {'n': [0.5, 0.75, 0.25], 'd': 12.5, 't': 4}]
+                   {'n': [0.0, 1.0, 0.0], 'd': -64.0, 't': 1}, {'n': [0.5, 0.75, 0.25], 'd': 12.5, 't': 4},
+                   # the type field is stored data: a 45-degree plane (tie), a nearly axial one, and a non-canonical value
+                   {'n': [f32(0.70710677), f32(0.70710677), 0.0], 'd': 3.0, 't': 3}, {'n': [f32(0.9962), f32(0.0872), 0.0], 'd': 4.0, 't': 3},
+                   {'n': [0.0, 0.0, 1.0], 'd': 5.0, 't': 5}]
     w['vertexes'] = [[-64.0, -64.0, 0.0], [64.0, -64.0, 0.0], [64.0, 64.0, 0.5], [-64.0, 64.0, 0.0], [0.25, 0.0, 128.5]]
     if origin_vertex:
         w['vertexes'].append([0.0, 0.0, 0.0])
@@ -803,7 +806,8 @@ def make_world(layout: str, origin_vertex: bool = False) -> dict:
     w['props'] = {'version': ver, 'props': [prop('models/props/a.mdl', [1, 2]),
                                             prop('models/props_b/thing02.mdl', [1], flags=0x01, skin=-1, solidity=0, xbox=False),
                                             prop('models/props/a.mdl', [], origin=[0.0, 0.0, 0.0]),
-                                            prop('models/Props/A.MDL', [2], origin=[4.0, 0.0, 0.0])]}     # differs from the first in case only
+                                            prop('models/Props/A.MDL', [2], origin=[4.0, 0.0, 0.0]),      # differs from the first in case only
+                                            prop('models/' + 'w' * 117 + '.mdl', [1], origin=[5.0, 0.0, 0.0])]}   # exactly 128 bytes: fills the name field
     base_d = {'origin': [3.0, 4.0, 5.5], 'angles': [0.0, 45.0, 0.0], 'orient': 0, 'leaf': 1, 'lighting': [10, 20, 30, 255], 'styles': [0, 0], 'sway': 0}
     w['detail_props'] = [
         dict(base_d, kind='model', model='models/detail/grass.mdl'),
@@ -811,6 +815,7 @@ def make_world(layout: str, origin_vertex: bool = False) -> dict:
         dict(base_d, kind='shape', leaf=2, scale=0.75, dims=[-4.0, 8.0, 4.0, 0.0], tex=[0.5, 0.0, 1.0, 0.5], cross=True, shape_angle=30, shape_size=128),
         dict(base_d, kind='shape', leaf=2, scale=0.75, dims=[-4.0, 8.0, 4.0, 0.0], tex=[0.5, 0.0, 1.0, 0.5], cross=False, shape_angle=0, shape_size=1),
         dict(base_d, kind='model', model='models/detail/rock.mdl', orient=1),
+        dict(base_d, kind='model', model='models/detail/' + 'd' * 110 + '.mdl', orient=0),       # exactly 128 bytes
     ]
     w['pakfile'] = [['materials/maps/synth/c0_0_0.vmt', b'"LightmappedGeneric"\n{\n}\n'.hex()], ['cfg/x.txt', b'hello'.hex()]]
     return w
